@@ -4,7 +4,14 @@ package main
 // (not in the manifest).
 func init() {
 	props["C00"] = func(r *Report) {
-		r.Guard("C00.R1", "lock pairing over the whole module", func() { lockPairRule(r); goCaptureRule(r); lastIndexRule(r); nilableFieldRule(r); goBlockRule(r); funcFieldCallsRule(r) })
+		r.Guard("C00.R1", "lock pairing over the whole module", func() {
+			lockPairRule(r)
+			goCaptureRule(r)
+			lastIndexRule(r)
+			nilableFieldRule(r)
+			goBlockRule(r)
+			funcFieldCallsRule(r)
+		})
 		r.Guard("C00.R2", "errors returned", func() {
 			for _, n := range [][2]string{{"mitm", "Config.cert"}, {"h2", "relay.processFrame"}, {"trafficshape", "Handler.ServeHTTP"}, {"parse", "FromJSON"}, {"marbl", "Stream.sendHeader"}, {"header", "ViaModifier.ModifyRequest"}, {"marbl", "Reader.ReadFrame"}, {"har", "NewRequest"}, {"har", "NewResponse"}, {"har", "postData"}, {"har", "Logger.RecordRequest"}, {"har", "Logger.RecordResponse"}, {"static", "Modifier.ModifyResponse"}, {"body", "Modifier.ModifyResponse"}, {"h2/grpc", "adapter.Data"}, {"h2/grpc", "emitter.Message"}, {"h2/grpc", "adapter.Header"}, {"messageview", "MessageView.SnapshotRequest"}, {"messageview", "MessageView.SnapshotResponse"}, {"messageview", "MessageView.BodyReader"}, {"trafficshape", "parseShapes"}, {"h2", "relay.relayFrames"}, {"h2", "relay.sendWindowUpdates"}, {"h2", "relay.data"}, {"h2", "relay.header"}, {"h2", "relay.pushPromise"}, {"h2", "Config.Proxy"}, {"", "Proxy.connect"}, {"", "Proxy.readRequest"}, {"", "newSession"}, {"har", "PostData.UnmarshalJSON"}, {"har", "Content.UnmarshalJSON"}, {"har", "PostData.MarshalJSON"}, {"har", "Content.MarshalJSON"}, {"h2/grpc", "gunzip"}, {"h2/grpc", "deflate"}, {"h2", "forwardPreface"}, {"trafficshape", "Listener.Accept"}, {"body", "modifierFromJSON"}, {"static", "modifierFromJSON"}, {"h2", "relay.decodeFull"}, {"h2", "relay.encodeFull"}, {"", "withSession"}, {"", "newID"}, {"", "TestContext"}, {"marbl", "Stream.LogRequest"}, {"marbl", "Stream.LogResponse"}, {"martianlog", "Logger.ModifyRequest"}, {"martianlog", "Logger.ModifyResponse"}} {
 				errorsReturnedRule(r, r.Use(n[0], n[1]), false)
